@@ -613,6 +613,39 @@ theorem solve_kwargs (o : Obj K) (kw : SolveKw K) (res : List K) :
   refine ⟨rfl, rfl, rfl, fun hd => ?_, rfl, rfl⟩
   exact solve_ends_fixed res (kw.d.getD o.d) hd
 
+/-! ## counts: one call with many points; the stress array -/
+
+theorem EMany_length (fl : K → Int) (f : K → K → K) (c1 c2 : K) (qs : List (K × K)) :
+    (EMany fl f c1 c2 qs).length = qs.length := by
+  simp [EMany]
+
+/-- one call with n points is, point by point, the n single-point calls -- for EVERY n (1, 2049, 65537 …). -/
+theorem EMany_pointwise (fl : K → Int) (f : K → K → K) (c1 c2 : K) (qs : List (K × K)) (i : Nat) :
+    (EMany fl f c1 c2 qs)[i]? = (qs[i]?).map (fun q => E fl f c1 c2 q.1 q.2) := by
+  simp [EMany]
+
+/-- evaluating the points in consecutive blocks (of any sizes) and joining the answers is the one call, provided the blocks
+    cover the query: nothing may be left over after the last full block. -/
+theorem EMany_blocks (fl : K → Int) (f : K → K → K) (c1 c2 : K) (blocks : List (List (K × K))) :
+    EMany fl f c1 c2 blocks.flatten = (blocks.map (EMany fl f c1 c2)).flatten := by
+  unfold EMany
+  rw [List.map_flatten]
+
+theorem EMany_single (fl : K → Int) (f : K → K → K) (c1 c2 a1 a2 : K) :
+    EMany fl f c1 c2 [(a1, a2)] = [E fl f c1 c2 a1 a2] := rfl
+
+/-- only the second row of the stress array enters the stress term, for both expressions and both difference quotients. -/
+theorem stress_second_row_only (full cdiff : Bool) (τ τ' : M3 K) (h : τ.r1 = τ'.r1) (x : List K) (d : List (V3 K)) :
+    stressEnergyT full cdiff τ x d = stressEnergyT full cdiff τ' x d := by
+  simp only [stressEnergyT, h]
+
+/-- for a SYMMETRIC stress array row and column agree -- which is why only non-symmetric arrays tell the second row from the
+    second column. -/
+theorem stress_symmetric_row_eq_col (full cdiff : Bool) (τ : M3 K) (h : τ.transpose = τ) (x : List K) (d : List (V3 K)) :
+    stressEnergyT full cdiff τ.transpose x d = stressEnergyT full cdiff τ x d := by
+  rw [h]
+
+
 /-! ## non-vacuity: the hypotheses of `E_interpolates` are satisfiable with non-constant data -/
 
 section nonvacuity
@@ -849,5 +882,10 @@ theorem halfwidth_continuum_real (pi g0 Kb2 c : ℝ) (hpi : 0 < pi) (hg : 0 < g0
       ≤ pi * g0 * w - Kb2 / (4 * pi) * Real.log w + c :=
   halfwidth_continuum_partial Real.log (fun x y hx hy => Real.log_mul hx.ne' hy.ne') (fun t ht => Real.log_le_sub_one_of_pos ht)
     pi g0 Kb2 c hpi hg hK w hw
+
+/-- non-vacuity: a non-symmetric stress array whose transpose gives another stress energy (Shen-Cheng form, two points). -/
+example : stressEnergyT (K := ℚ) false false ⟨⟨0, 1, 0⟩, ⟨0, 0, 0⟩, ⟨0, 0, 0⟩⟩ [0, 1] [⟨1, 0, 0⟩, ⟨1, 0, 0⟩]
+    ≠ stressEnergyT (K := ℚ) false false (M3.transpose ⟨⟨0, 1, 0⟩, ⟨0, 0, 0⟩, ⟨0, 0, 0⟩⟩) [0, 1] [⟨1, 0, 0⟩, ⟨1, 0, 0⟩] := by
+  decide +kernel
 
 end Atomman.C18
